@@ -1,15 +1,22 @@
 import Driver.ProgJson
 import Heph.Model.Closed
+import Heph.Model.Reserved
+import Heph.Model.Assignable
 /-! Ops of property C05.
 
 * `closed.check`  `{<program export>, "keywords": [..], "stats": bool}` →
   `{"r": "ok"}` | `{"r": {"path":…, "reason":…}}` (+ `"kinds": {kind: count}` when `stats`)
 * `closed.pool`   `{"initial": [..], "ops": [op…]}` → `{"r": [answer…], "words": [..], "initial": [..]}` where op is
-    `["word", choice]`            → the word | `"KeyError"` (choice not in the pool: never on a real run)
+    `["word", choice]`            → the word | `"KeyError"` (choice not in the pool: never on a real run);
+                                    `["word", null]` → `"IndexError"` iff the pool is empty (`r.choice(())`), else `"bad-request"`
     `["reset"]`                   → `null`
-    `["remove_reserved", [kw…]]`  → `null`
+    `["remove_reserved", [kw…], fixed?]`  → `null` (`fixed` absent: the variant `Pool.codeIsFixed` names)
     `["gen_identifier", mode, choice]` (mode `null | "lower" | "capitalize"`) → identifier | `"KeyError"`
     `["caps", [sample…], [blacklist…]]` → the accepted sample | `null`
+* `closed.variant` `{}` → `"fixed"` | `"asIs"` (`Pool.codeIsFixed`)
+* `closed.collisions` `{"fixed": bool}` → `[[language, word, identifier]…]` (`Pool.reservedCollisions` on the regenerated tables)
+* `closed.assignable` `{"insideJavaLambda": bool, "vars": [{"name", "isFinal": bool|null, "searched": bool,
+     "fields": [[name, isFinal]…]|null}…]}` → `[[receiver|null, name, isFinal]…]` | `"TypeError"`
 -/
 open Lean Heph Heph.Scope
 namespace Driver.Closed
@@ -22,14 +29,19 @@ def poolStep (p : Pool.Pool) (op : Json) : Except String (Json × Pool.Pool) := 
   let tag ← (a[0]?.getD Json.null).getStr?
   match tag with
   | "word" =>
-    let c ← (a[1]?.getD Json.null).getStr?
-    match p.word c with
-    | some (w, p') => pure (Json.str w, p')
-    | none => pure (Json.str "KeyError", p)
+    match a[1]?.getD Json.null with
+    | .null => pure (Json.str (if p.words.isEmpty then "IndexError" else "bad-request"), p)
+    | cj =>
+      let c ← cj.getStr?
+      match p.word c with
+      | some (w, p') => pure (Json.str w, p')
+      | none => pure (Json.str "KeyError", p)
   | "reset" => pure (Json.null, p.reset)
   | "remove_reserved" =>
     let kw ← strList (a[1]?.getD Json.null)
-    pure (Json.null, p.removeReservedWords kw)
+    match a[2]?.getD Json.null with
+    | .bool b => pure (Json.null, p.removeReservedWordsV b kw)
+    | _ => pure (Json.null, p.removeReservedWords kw)
   | "gen_identifier" =>
     let mode ← match a[1]?.getD Json.null with
       | .null => pure Pool.Mode.plain
@@ -71,6 +83,26 @@ def handle : Handler := fun op j =>
         out := out.push a
         p := p'
       pure (Json.mkObj [("r", Json.arr out), ("words", ofStrList p.words), ("initial", ofStrList p.initial)]))
+  | "closed.variant" => some (pure (res (Json.str (if Pool.codeIsFixed then "fixed" else "asIs"))))
+  | "closed.collisions" => some (do
+      let b := (j.getObjValD "fixed") == Json.bool true
+      pure (res (Json.arr ((Pool.reservedCollisions b).toArray.map fun (l, w, i) =>
+        Json.arr #[Json.str l, Json.str w, Json.str i]))))
+  | "closed.assignable" => some (do
+      let jl ← getBool j "insideJavaLambda"
+      let vs ← (← getArr j "vars").toList.mapM fun v => do
+        let isFinal := match v.getObjValD "isFinal" with | .bool b => some b | _ => none
+        let fj := v.getObjValD "fields"
+        let fields ← if fj.isNull then pure none else do
+          let fs ← (← fj.getArr?).toList.mapM fun f => do
+            let fa ← f.getArr?
+            pure ((← (fa[0]?.getD Json.null).getStr?), (fa[1]?.getD Json.null) == Json.bool true)
+          pure (some fs)
+        pure ({ name := ← getStr v "name", isFinal := isFinal, searched := ← getBool v "searched", fields := fields } : Assignable.VarInfo)
+      match Assignable.assignableVars jl vs with
+      | none => pure (res (Json.str "TypeError"))
+      | some cs => pure (res (Json.arr (cs.toArray.map fun c =>
+          Json.arr #[(match c.recv with | some r => Json.str r | none => Json.null), Json.str c.name, Json.bool c.isFinal]))))
   | _ => none
 
 end Driver.Closed
